@@ -14,7 +14,7 @@ COLS = ["a", "b", "c", "d"]
 def call(kind, n):
     if kind == "columns":
         return "(columns%s)" % "".join(" " + hexs(c) for c in COLS[:n])
-    if kind in ("values", "valuespanic"):
+    if kind in ("values", "valuespanic", "valuesit", "valuespanicit"):
         return "(%s%s)" % (kind, "".join(" (val i:i32:%d)" % (k + 1) for k in range(n)))
     if kind == "valuesfrompanic":
         # two rows of the given length
@@ -30,6 +30,7 @@ def call(kind, n):
 
 
 ALPHABET = ([("columns", n) for n in range(0, 4)] + [("values", n) for n in range(0, 4)] +
+            [("valuesit", n) for n in range(0, 4)] + [("valuespanicit", n) for n in range(1, 3)] +
             [("valuespanic", n) for n in range(0, 3)] + [("selectfrom", n) for n in range(1, 4)] +
             [("valuesfrompanic", 2), ("ordefault", 0), ("ordefaultmany", 2)])
 HIST = {}
@@ -65,13 +66,13 @@ def simulate(h):
             if has_source and n != ncols:
                 recolumn = True
             ncols = n
-        elif k == "values":
+        elif k in ("values", "valuesit"):
             if n == ncols:
                 log.append("ok")
                 has_source = has_source or n > 0
             else:
                 log.append("err(%d,%d)" % (ncols, n))
-        elif k == "valuespanic":
+        elif k in ("valuespanic", "valuespanicit"):
             if n != ncols:
                 return log, True, recolumn
             has_source = has_source or n > 0
